@@ -15,12 +15,13 @@ import (
 // peek the token type, then read or skip the value with a typed reader, a skip function or
 // a nested handler traversal, always returning the offset that call reported.
 type composer struct {
-	r        *workload.Rand
-	readAll  bool // read every member with validating readers (no skipping)
-	buf      *rjson.Buffer
-	strBuf   []byte
-	used     map[string]int
-	maxDepth int
+	r          *workload.Rand
+	readAll    bool // read every member with validating readers (no skipping)
+	validating bool // may skip, but only in validating ways: SkipValue (nil or shared buffer), return 0, nested handlers
+	buf        *rjson.Buffer
+	strBuf     []byte
+	used       map[string]int
+	maxDepth   int
 }
 
 type skipped struct{}
@@ -41,7 +42,11 @@ func (cp *composer) value(data []byte, depth int, inHandler bool) (val interface
 	p0-- // offset of the token itself
 	rest := data[p0:]
 	if !cp.readAll {
-		switch cp.r.Intn(8) {
+		choice := cp.r.Intn(8)
+		if cp.validating && choice == 1 {
+			choice = 0 // SkipValueFast does not validate
+		}
+		switch choice {
 		case 0:
 			cp.use("SkipValue")
 			pp, e := rjson.SkipValue(rest, cp.buf)
@@ -177,6 +182,7 @@ func RunC08(c *Ctx) {
 			return
 		}
 		d := cs.Input
+		model := c.Parse(cs)
 		var want interface{}
 		var wp int
 		var werr error
@@ -200,7 +206,7 @@ func RunC08(c *Ctx) {
 		}
 		for prog := 0; prog < nprog; prog++ {
 			var buf rjson.Buffer
-			cp := &composer{r: workload.NewRand(c.Seed, h.Hash(d)+uint64(prog)*977), readAll: prog < 2, buf: &buf, used: map[string]int{}}
+			cp := &composer{r: workload.NewRand(c.Seed, h.Hash(d)+uint64(prog)*977), readAll: prog < 2, validating: prog >= 2 && prog%2 == 0, buf: &buf, used: map[string]int{}}
 			if prog%2 == 1 {
 				cp.buf = nil
 			}
@@ -216,7 +222,7 @@ func RunC08(c *Ctx) {
 				c.Rec.Count("api_calls_"+k, int64(n))
 			}
 			c.Rec.Max("max_composition_depth", int64(cp.maxDepth))
-			script := fmt.Sprintf("program #%d readAll=%v sharedBuffer=%v calls=%v", prog, cp.readAll, cp.buf != nil, cp.used)
+			script := fmt.Sprintf("program #%d readAll=%v validatingOnly=%v sharedBuffer=%v calls=%v", prog, cp.readAll, cp.validating, cp.buf != nil, cp.used)
 			viol := func(oracle, exp, obs string) {
 				c.Rec.AddViolation(h.Violation{Property: c.Prop, Oracle: oracle, Entry: "composition", Family: cs.Family, Desc: cs.Describe(), InputB64: b64(d), InputQ: h.Quote(d), Script: script, Expected: exp, Observed: obs, Seed: c.Seed, Tier: c.Tier})
 			}
@@ -230,6 +236,15 @@ func RunC08(c *Ctx) {
 				}
 			} else if cp.readAll && gerr == nil {
 				viol("read-everything composition decoder succeeds where direct decoding fails", "error ("+werr.Error()+")", fmt.Sprintf("p=%d tree=%s", gp, show(got)))
+			} else if cp.validating && gerr == nil && !model.OK {
+				// SkipValue, 'return 0' and nested traversals all validate what they pass over: such a
+				// decoder may only succeed where the first value is well-formed (it does not convert
+				// numbers, so a float overflow, which makes direct decoding fail, is not demanded here)
+				c.Rec.C("validating_mix_checked_on_malformed_input")
+				viol("composition decoder using only validating readers/skippers succeeds on a malformed value", "error", fmt.Sprintf("p=%d", gp))
+			}
+			if cp.validating && !model.OK {
+				c.Rec.C("validating_mix_runs_on_malformed_input")
 			}
 			if c.Rec.WantSample() && werr == nil && len(cp.used) >= 4 && c.Rec.R.Cases%1009 == 1 {
 				c.Rec.Sample(map[string]interface{}{"input": h.Quote(d), "how": cs.Describe(), "program": script, "direct_p": wp, "composed_p": gp, "composed_err": errStr(gerr)})
